@@ -63,14 +63,18 @@ Expected(jam) ==
       e2 == Max(e1, Standby)
       e3 == IF MaxW > 0 /\ e2 > MaxW THEN MaxW ELSE e2
   IN IF jam /\ wbusy >= wcount /\ wcount >= e3 THEN wcount + 1 ELSE e3
+\* trySpawn computes the expected number under the read lock (SpawnDecide) and reads workerCount AGAIN, without the lock, for its
+\* loop bounds (SpawnInit): a worker that leaves in between makes the loop longer than the decision alone would.
 SpawnDecide ==
   /\ spc = "woken"
-  /\ IF closed THEN /\ spc' = "exited" /\ UNCHANGED <<sexp, sleft>>
-     ELSE \E jam \in BOOLEAN :
-            /\ sexp' = Expected(jam)
-            /\ sleft' = IF wcount < Expected(jam) THEN Expected(jam) - wcount ELSE 0
-            /\ spc' = "spawning"
-  /\ UNCHANGED <<queue, qClosed, tok, closed, wcount, wbusy, wpc, wjob, wisbusy, wpanic, wleft, subpc, sidx, sres, ran, handler, maxrun, xpc>>
+  /\ IF closed THEN /\ spc' = "exited" /\ UNCHANGED sexp
+     ELSE \E jam \in BOOLEAN : sexp' = Expected(jam) /\ spc' = "decided"
+  /\ UNCHANGED <<queue, qClosed, tok, closed, wcount, wbusy, sleft, wpc, wjob, wisbusy, wpanic, wleft, subpc, sidx, sres, ran, handler, maxrun, xpc>>
+SpawnInit ==
+  /\ spc = "decided"
+  /\ sleft' = IF wcount < sexp THEN sexp - wcount ELSE 0
+  /\ spc' = "spawning"
+  /\ UNCHANGED <<queue, qClosed, tok, closed, wcount, wbusy, sexp, wpc, wjob, wisbusy, wpanic, wleft, subpc, sidx, sres, ran, handler, maxrun, xpc>>
 SpawnGen ==
   /\ spc = "spawning"
   /\ IF sleft = 0 THEN /\ spc' = "idle" /\ UNCHANGED <<sleft, wcount, wpc>>
@@ -159,7 +163,7 @@ CloseQueue == /\ xpc = "flagged" /\ qClosed' = TRUE /\ xpc' = "done"
               /\ UNCHANGED <<queue, tok, closed, wcount, wbusy, spc, sexp, sleft, wpc, wjob, wisbusy, wpanic, wleft, subpc, sidx, sres, ran, handler, maxrun>>
 
 Sub == SubCheck \/ SubOffer \/ SubNotify
-SpawnLoop == SpawnWake \/ SpawnDecide \/ SpawnGen
+SpawnLoop == SpawnWake \/ SpawnDecide \/ SpawnInit \/ SpawnGen
 WorkerStep(i) == WLoop(i) \/ WTake(i) \/ WExpire(i) \/ WExpiryCheck(i) \/ WStart(i) \/ WEnd(i) \/ WExit(i) \/ WExit2(i)
 Next == Sub \/ SpawnLoop \/ (\E i \in W : WorkerStep(i)) \/ CloseFlag \/ CloseQueue
 Spec == Init /\ [][Next]_vars
